@@ -96,6 +96,7 @@ Generic(e) ==
 Failing(e) ==
     (IF last'.act \in {"Checkout", "Switch"} /\ ~(RoundTrip' /\ head' = ToMap(e.t)) THEN {"RoundTrip"} ELSE {})
     \cup (IF ~StageAllComplete' THEN {"StageAllComplete"} ELSE {})
+    \cup (IF e.act = "Stage" /\ StageOK(index, wd, Paths, e.p) /\ ~StageComplete' THEN {"StageComplete"} ELSE {})
     \cup (IF e.hasrep /\ obs' # rep' THEN {"StatusExact"} ELSE {})
     \cup (IF e.hasnorm /\ NormalComparable(index', wd') /\ ToNorm(e.norm) # UntrackedNormal(index', wd') THEN {"StatusExactNormal"} ELSE {})
     \cup (IF e.hasgit /\ ToRep(e.git) # rep' THEN {"GitDisagrees"} ELSE {})
@@ -114,6 +115,8 @@ Explain(e, cs) ==
           /\ \A x \in want \ got : PrintT(<<"DIFF", Traces[tid].tid, l, "StatusExactNormal", IF x.dir THEN "normdir" ELSE "normfile", "-", x.p>>)
     /\ "StageAllComplete" \in cs =>
           \A p \in {q \in Paths : index'[q] # wd'[q]} : PrintT(<<"DIFF", Traces[tid].tid, l, "StageAllComplete", "index", "#", p>>)
+    /\ "StageComplete" \in cs =>
+          \A p \in {q \in Covered(Paths, e.p) : index'[q] # wd'[q]} : PrintT(<<"DIFF", Traces[tid].tid, l, "StageComplete", "index", "#", p>>)
     /\ "RoundTrip" \in cs =>
           LET t == ToMap(e.t) IN
           /\ \A p \in {q \in Paths : head'[q] # t[q]} : PrintT(<<"DIFF", Traces[tid].tid, l, "RoundTrip", "head", "#", p>>)
